@@ -114,6 +114,11 @@ def run(ctx):
                 c = {"fn": "gen", "name": name, "args": G.enc_args(a), "ensure_bounded": eb, "return_scale": eb, "chebyshev_basis": True,
                      "cheb_samples": ns, "timeout": 300}
                 cases.append(c)
+        # directed: as many samples as coefficients (interpolation), odd and even generators, incl. degree 19 with the default 20 samples
+        for name, a in (("sign", {"degree": 19, "delta": 2.0}), ("linamp", {"degree": 19, "gamma": 0.25, "kappa": 10}), ("sign", {"degree": 29, "delta": 5.0}),
+                        ("gibbs", {"degree": 24, "beta": 2.0}), ("thresh", {"degree": 28, "delta": 4.0})):
+            cases.append({"fn": "gen", "name": name, "args": G.enc_args(a), "ensure_bounded": rng.random() < 0.5, "return_scale": True, "chebyshev_basis": True,
+                          "cheb_samples": a["degree"] + 1, "timeout": 300})
         # directed: extreme shape parameters (large kappa with large delta, large delta, small gamma ...)
         for name, a in (("softplus", {"degree": 10, "delta": 0.7, "kappa": 40}), ("softplus", {"degree": 16, "delta": 0.85, "kappa": 60}),
                         ("sign", {"degree": 21, "delta": 20.0}), ("linamp", {"degree": 15, "gamma": 0.05, "kappa": 40}),
